@@ -173,6 +173,16 @@ class ObjSeq:
         return self.length
 
 
+class TupleSeq:
+    """symbolic-length sequence of fixed-arity tuples of scalars (e.g. [(lo_d, hi_d) for d in range(dim)]) in struct-of-arrays form; read only"""
+
+    def __init__(self, length, arrays):
+        self.length, self.arrays = length, list(arrays)
+
+    def len(self):
+        return self.length
+
+
 class SetV:
     def __init__(self, arr):
         self.arr = arr  # Array Key -> Bool
